@@ -2,14 +2,34 @@ package main
 
 import (
 	"fmt"
+	"math/rand"
+	"os"
 
-	"github.com/tsawler/tabula/xlsx"
+	"github.com/tsawler/tabula/odt"
+
+	"verifharness/fw"
+	"verifharness/gen/logical"
+	"verifharness/gen/odf"
 )
 
 func main() {
-	for _, s := range []string{"", "1A", "A", "A0", "#REF!", ":C3", "A1:", "A1:#REF!", "#REF!:C3", " B2:C3", "B:C3", "2B:C3", "A1:B2:C3", "a1:b2", "A1", "$A$1:$B$2", "A-1:B2", "A1:B-2", "A1 :B2"} {
-		c1, r1, c2, r2, err := xlsx.ParseRangeRef(s)
-		c, r, e2 := xlsx.ParseCellRef(s)
-		fmt.Printf("%-12q range=(%d,%d,%d,%d) err=%v | cell=(%d,%d) err=%v\n", s, c1, r1, c2, r2, err != nil, c, r, e2 != nil)
+	for seed := int64(1); seed <= 30; seed++ {
+		r := rand.New(rand.NewSource(seed))
+		d := logical.Gen(r, fw.NewTokens(r), logical.Profile{MinBlocks: 5, MaxBlocks: 9, Tables: true, MaxRows: 5, MaxCols: 4, Spans: true, MultiPara: true, EmptyCells: true, BlockBias: "tables", Styles: 1, Lists: true, ListMaxDepth: 2})
+		p := "/dev/shm/dbgdoc.odt"
+		os.WriteFile(p, odf.WriteODT(d, odf.Options{}), 0o644)
+		a, _ := odt.Open(p)
+		a.ModelTables()
+		a.Tables()
+		m1, _ := a.Markdown()
+		b, _ := odt.Open(p)
+		m2, _ := b.Markdown()
+		nt := 0
+		for _, bl := range d.Blocks {
+			if bl.Kind == logical.BTable {
+				nt++
+			}
+		}
+		fmt.Println(seed, "tables", nt, "features", d.Features["table.vspan"], d.Features, "differs:", m1 != m2)
 	}
 }
